@@ -106,7 +106,9 @@ def parseOpts (t : String) : Option VOpts :=
     | none => some none
     | some "~" => some none
     | some v => (C04.parseId v).map some
-  match onat m "n", mid, (get m "sc").bind parseScopeOpt, (get m "ee").bind String.toInt?, (get m "li").bind String.toInt?,
+  -- `N<unix>`: the bound was left unset and the validator read the clock, which showed about <unix>
+  let bound (v : String) : Option Int := if v.startsWith "N" then (v.drop 1).toString.toInt? else v.toInt?
+  match onat m "n", mid, (get m "sc").bind parseScopeOpt, (get m "ee").bind bound, (get m "li").bind bound,
     (get m "sh").bind parseSh, (get m "stc").bind parseStc, get m "ff" with
   | some n, some mid, some sc, some ee, some li, some sh, some stc, some ff =>
     some ⟨n, mid, sc, ee, li, sh, stc, ff == "1"⟩
